@@ -213,8 +213,16 @@ def huge_perm_case(draw):
     return {"g": gs, "p": p, "x": draw(gens.x_spec(d_max=2, kinds=("normal",))), "rseed": draw(gens.seeds)}
 
 
+@st.composite
+def huge_nk_perm_case(draw):
+    gs = draw(objs.gemini_spec(bases=("tv", "kl", "hellinger", "chi2", "mmd"), kernel_forms=("named",)))
+    p = draw(gens.p_spec(n_min=660, n_max=1700, k_min=26, k_max=48, scales=[0.5, 2.0, 8.0]))
+    return {"g": gs, "p": p, "x": draw(gens.x_spec(d_max=2, kinds=("normal",))), "rseed": draw(gens.seeds)}
+
+
 def subs():
     return [
+        Sub("huge_nk_permutation", huge_nk_perm_case(), oracle_perm, 40, 500, "permutation invariance, n*K^2 beyond 2^20"),
         Sub("huge_permutation", huge_perm_case(), oracle_perm, 120, 1200, "permutation invariance for n in (1024, 2600]"),
         Sub("permutation", perm_case(), oracle_perm, 4000, 80000, "joint permutation of samples and clusters"),
         Sub("empty_cluster", empty_case(), oracle_empty, 3000, 60000, "appended empty cluster"),
